@@ -338,6 +338,16 @@ func c16Special(t *engine.T) {
  return t } %><% let g = fn() { return t } %><% let h = fn(u) { let w = u
  return t + w } %><%= g() %>|<%= f() %>|<%= g() %>|<%= h("1") %>|<%= g() %>|<%= f() + g() %>|<%= t %>`, "outer|two|outer|outer1|outer|twoouter|outer"},
 		{"a list is returned as that list, whatever its length", `<% let id = fn(x) { return x } %><% let mk1 = fn(v) { return [v] } %><%= len(id(["seven"])) %>|<%= id(["seven"])[0] %>|<%= for (e) in id([[1, 2]]) { %><%= len(e) %><% } %>|<%= len(id([])) %>|<%= len(id([1, 2])) %>|<%= len(mk1(5)) %>|<%= mk1(5)[0] + 1 %>|<%= len(mk1([1, 2, 3])) %>|<%= len(id(id([[9]]))[0]) %>|<%= rec(id(["z"]))[0] %>`, "1|seven|2|0|2|1|6|1|1|z"},
+		{"argument tuples that print alike are different calls", `<% let f = fn(a, b) { return "[" + a + "|" + b + "]" } %><% let g = fn(a) { return a + 1 } %><% let e = fn(a, b) { if (a == "") { return "first-empty" }
+ return "second-empty" } %><%= f("x", "") %><%= f("", "x") %>|<%= f("ab", "c") %><%= f("a", "bc") %>|<%= g(1) %>,<%= g("1") %>,<%= g(1) %>|<%= e("x", "") %>,<%= e("", "x") %>|<%= f("1", 1) %><%= f(1, "1") %>|<%= g(2) %>,<%= g("2") %>`, "[x|][|x]|[ab|c][a|bc]|2,11,2|second-empty,first-empty|[1|1][1|1]|3,21"},
+		{"statements with braces of their own after a return are part of the same block", `<% let f = fn(a, b) { if (a == "q") { return "C"
+ if (b == "y") { mark() }
+ for (z) in [1] { mark() }
+ let h = {"k": 1}
+ if (true) { return "D" } }
+ return "E" } %><%= f("q", "y") %>|<%= f("z", "y") %>|<% let g = fn(a) { return a
+ if (true) { mark() } else { mark() }
+ return "dead" } %><%= g("G") %>|<%= f("q", "n") %>`, "C|E|G|C"},
 		{"apply with two different functions", `<% let f1 = fn(a) { return a + "1" } %><% let f2 = fn(a) { return a + "2" } %><% let apply = fn(g, v) { return g(v) } %><%= apply(f1, "A") %>|<%= apply(f2, "A") %>|<%= apply(f1, apply(f2, "B")) %>`, "A1|A2|B21"},
 		{"rebound function variable", `<% let h = fn(a) { return "p" + a } %><%= h("1") %><% h = fn(a) { return "q" + a } %>|<%= h("1") %><% let k = h %>|<%= k("2") %>`, "p1|q1|q2"},
 		{"parameter named like a defined function", `<% let f = fn(a) { return "outer" + a } %><% let call = fn(f, v) { return f(v) } %><% let other = fn(a) { return "param" + a } %><%= call(other, "1") %>|<%= f("2") %>|<%= call(f, "3") %>`, "param1|outer2|outer3"},
